@@ -6,6 +6,7 @@ package main
 
 import (
 	"crypto/sha1"
+	"encoding/json"
 	"encoding/hex"
 	"os"
 	"path/filepath"
@@ -80,9 +81,21 @@ func impl(in hv.Val) hv.Val {
 	}
 	root := "/" + strings.Join(parts, "/")
 	ae := hv.AsStr(l[2])
-	st, body, cl, ce, cnt := mod_static.VerifServe(int(hv.AsInt(l[7])), hv.AsStr(l[0]), hv.AsStr(l[1]), ae, ae != "", root,
+	route := int(hv.AsInt(l[7]))
+	ruleFile := ""
+	if route == 3 { // write the BROWSE rule (with the command as spelled in the input) to a rule file
+		data, _ := json.Marshal(map[string]interface{}{"Version": "v", "Config": map[string]interface{}{"p": []interface{}{
+			map[string]interface{}{"Cond": "default_t()", "Action": map[string]interface{}{"Cmd": hv.AsStr(l[8]),
+				"Params": []string{root, hv.AsStr(l[4])}}}}}})
+		os.MkdirAll(scratch, 0755)
+		ruleFile = scratch + "/static_rule.data"
+		if err := os.WriteFile(ruleFile, data, 0644); err != nil {
+			panic(err)
+		}
+	}
+	st, body, cl, ce, cnt := mod_static.VerifServe(route, ruleFile, hv.AsStr(l[0]), hv.AsStr(l[1]), ae, ae != "", root,
 		hv.AsStr(l[4]), hv.AsInt(l[5]) != 0)
-	return hv.L{hv.I(st), hv.B(body), hv.S(cl), hv.S(ce), hv.L{hv.Z(cnt[0]), hv.Z(cnt[1]), hv.Z(cnt[2])}}
+	return hv.L{hv.I(st), hv.B(body), hv.S(cl), hv.S(ce), hv.L{hv.Z(cnt[0]), hv.Z(cnt[1]), hv.Z(cnt[2]), hv.Z(cnt[3])}}
 }
 
 var longName = strings.Repeat("L", 255)
@@ -326,11 +339,16 @@ func gen(r *hv.Rng, i int, tier string) (string, hv.Val) {
 		class += "+def"
 	}
 	route := 0
+	cmd := ""
 	if r.Chance(1, 25) {
 		route = r.Range(1, 2)
 		class = "route"
+	} else if r.Chance(1, 10) { // the rule comes from a rule file: it loads only with the exact command and existing files
+		route = 3
+		cmd = r.Pick([]string{"BROWSE", "BROWSE", "BROWSE", "browse", "Browse", "SERVE", ""})
+		class = "rulefile"
 	}
-	return class, hv.L{hv.S(method), hv.S(target), hv.S(ae), t.rootVal, hv.S(def), hv.Bool(compress), t.val, hv.I(route)}
+	return class, hv.L{hv.S(method), hv.S(target), hv.S(ae), t.rootVal, hv.S(def), hv.Bool(compress), t.val, hv.I(route), hv.S(cmd)}
 }
 
 func main() {
